@@ -298,44 +298,51 @@ func TestCheck(t *testing.T) {
 				jobs = append(jobs, job{l, f})
 			}
 		}
-		for _, ep := range use {
-			if run.Quick() && ep.Name == epochs[5].Name {
-				continue // quick tier: the pre-Byzantium-rules spring epoch only sees the ops/bytes/precompile/depth parts
-			}
-			mainEpoch := ep.Name == epochs[0].Name || ep.Name == epochs[1].Name || ep.Name == epochs[2].Name
-			modes := modesFor(ep, true)
-			k.parallel(len(jobs), func(i int) {
-				j := jobs[i]
-				n := 0
-				enumSeq(alpha, j.length, j.first, func(code []byte) {
-					n++
-					if k.stop(n) {
+		// two passes so that a deadline cap cuts the longest programs, not whole epochs: first everything
+		// shorter than seqDepth on every epoch, then the seqDepth-symbol programs
+		for pass := 0; pass < 2; pass++ {
+			for _, ep := range use {
+				if run.Quick() && ep.Name == epochs[5].Name {
+					continue // quick tier: the pre-Byzantium-rules spring epoch only sees the ops/bytes/precompile/depth parts
+				}
+				mainEpoch := ep.Name == epochs[0].Name || ep.Name == epochs[1].Name || ep.Name == epochs[2].Name
+				modes := modesFor(ep, true)
+				k.parallel(len(jobs), func(i int) {
+					j := jobs[i]
+					if (pass == 0) == (j.length == seqDepth) {
 						return
 					}
-					for _, mode := range modes {
-						if mode == ModeCreate && j.length > createDepth {
-							continue
+					n := 0
+					enumSeq(alpha, j.length, j.first, func(code []byte) {
+						n++
+						if k.stop(n) {
+							return
 						}
-						if run.Thorough() && j.length == seqDepth && (!mainEpoch || (mode == ModeStatic && !ep.ByzRules)) {
-							continue // thorough tier: 4-symbol programs on the three main epochs (static mode where it is asserted)
-						}
-						for gi, g := range gases {
-							if run.Quick() && j.length == seqDepth && (g < 1000 || (mode == ModeStatic && gi != len(gases)-1)) {
-								continue // quick tier, longest programs: no starvation budget; static wrapper only with the ample budget
+						for _, mode := range modes {
+							if mode == ModeCreate && j.length > createDepth {
+								continue
 							}
-							if run.Thorough() && j.length == seqDepth && g != 1000000 {
-								continue // thorough tier: 4-symbol programs with one ample budget
+							if run.Thorough() && j.length == seqDepth && (!mainEpoch || (mode == ModeStatic && !ep.ByzRules)) {
+								continue // thorough tier: 4-symbol programs on the three main epochs (static mode where it is asserted)
 							}
-							for ii, in := range inputs {
-								if ii > 0 && (j.length > 3 || gi != len(gases)-2) { // extra call data sizes: up to 3 symbols, one gas budget (10^6)
-									continue
+							for gi, g := range gases {
+								if run.Quick() && j.length == seqDepth && (g < 1000 || (mode == ModeStatic && gi != len(gases)-1)) {
+									continue // quick tier, longest programs: no starvation budget; static wrapper only with the ample budget
 								}
-								k.evaluate(Case{Scenario: "seq", Mode: mode, Code: code, Input: in, Gas: g, Ep: ep})
+								if run.Thorough() && j.length == seqDepth && g != 1000000 {
+									continue // thorough tier: 4-symbol programs with one ample budget
+								}
+								for ii, in := range inputs {
+									if ii > 0 && (j.length > 3 || gi != len(gases)-2) { // extra call data sizes: up to 3 symbols, one gas budget (10^6)
+										continue
+									}
+									k.evaluate(Case{Scenario: "seq", Mode: mode, Code: code, Input: in, Gas: g, Ep: ep})
+								}
 							}
 						}
-					}
+					})
 				})
-			})
+			}
 		}
 	}
 	lap("seq")
@@ -353,4 +360,3 @@ func TestCheck(t *testing.T) {
 	run.Sample(map[string]interface{}{"scenario": "precompile", "what": "addresses 1..9, inputs of every length 0..200 of 0x00/0xff/0x01, pairing sizes around k*192, ecrecover v/r/s boundaries, modexp length lattice up to 2^256-1"})
 	run.Finish()
 }
-
